@@ -347,8 +347,9 @@ def finish(chk: Check, seed=0):
             f"KNOWN-FINDING: property={chk.pid} {o['rule']} {o['file']}:{o['where']}"
             f" {o['construct']} -- {k.get('what', '')}"
         )
-    for k in stale:
-        print(f'NOTE: known finding no longer observed (not an error): {k}')
+    if chk.tier == 'thorough':
+        for k in stale:
+            print(f'NOTE: known finding not observed in this run (not an error): {k}')
     for i, o in enumerate(new):
         rp = outdir / f'violation_{i}.json'
         rp.write_text(json.dumps({'property': chk.pid, **o}, indent=1))
